@@ -453,6 +453,9 @@ func TestVerifC39(t *testing.T) {
 							// the receiver itself attached several pairs to this index value of its own; this is one of them
 							r.Count("legitimate_forwards", 1)
 							r.Count("legitimate_forwards_on_an_index_the_receiver_reused", 1)
+						case (!okC || !cf.from.IsValid()) && !okR && e.h.RemoteIndex == 0:
+							// witness class of its own: the receiver never gave the relay ANY index for this leg, the relay uses 0
+							r.Violation("C39/forwarded-with-relay-index-zero", fmt.Sprintf("scenario %d: packet from %s forwarded to %s with relay index 0: the relay marked the leg established without ever learning an index from %s", sc, c.name, e.to.name, e.to.name), rec)
 						case (!okC || !cf.from.IsValid()) && !okR:
 							r.Violation("C39/forwarded-on-unconfirmed-onward-leg", fmt.Sprintf("scenario %d: packet from %s forwarded to %s on index %d which %s never negotiated", sc, c.name, e.to.name, e.h.RemoteIndex, e.to.name), rec)
 						default:
